@@ -243,6 +243,9 @@ static void check_c17(const std::string & only, bool do_factory) {
                         try { back->read(in); } catch (...) { threw = true; }
                         if (threw || (uint32_t)back->objectType != code)
                             report("C17", std::string(c.name) + "|readback-code", "reading a written default object back does not yield the same code", lab);
+                        else if (in.fail_ || in.g != mf.data.size())
+                            report("C17", std::string(c.name) + "|readback-extent", "reading a written default object back " +
+                                   std::string(in.fail_ ? "runs beyond the " : "stops before the end of the ") + std::to_string(mf.data.size()) + " bytes it was written as (consumed " + std::to_string(in.g) + ")", lab);
                     }
                 }
                 g_distinct.insert(std::string("c") + c.name);
